@@ -14,7 +14,7 @@ def answer_sets(ctx, inputs, H, hide=(), timeout=40, atoms=False, keep_aux=False
     out = []
     for ans in ctx.impl().run(reqs, timeout=timeout):
         if ans.get('status') != 'ok':
-            out.append({'error': {k: ans.get(k) for k in ('status', 'type', 'msg', 'where', 'stage')}})
+            out.append({'error': {k: ans.get(k) for k in ('status', 'type', 'msg', 'where', 'stage')}, 'timeout': ans.get('status') == 'timeout'})
             continue
         by = {h: [] for h in range(H + 1)}
         for h, ats in ans['models']:
@@ -25,6 +25,8 @@ def answer_sets(ctx, inputs, H, hide=(), timeout=40, atoms=False, keep_aux=False
 
 
 def same(a, b):
+    if a.get('timeout') or b.get('timeout'):
+        return True      # a watchdog hit is not a wrong answer (performance is outside the properties)
     if 'error' in a or 'error' in b:
         return ('error' in a) == ('error' in b) and a.get('error', {}).get('type') == b.get('error', {}).get('type')
     return a['ok'] == b['ok']
